@@ -60,6 +60,49 @@ func (r *RNG) ThresholdInt64() (int64, int) {
 	return 1, 0
 }
 
+// WordImage returns a coefficient built from one part of c's multi-word or
+// multi-chunk representation (low/high 64-bit word, low/high 10^19 chunk, c
+// with its top bit cleared, the bitwise complement within c's width): an
+// operand "derived from part of the other operand".
+func (r *RNG) WordImage(c *big.Int) *big.Int {
+	two64 := new(big.Int).Lsh(ref.One, 64)
+	var img *big.Int
+	switch r.Intn(6) {
+	case 0:
+		img = new(big.Int).Mod(c, two64)
+	case 1:
+		img = new(big.Int).Rsh(c, 64)
+	case 2:
+		img = new(big.Int).Mod(c, ref.Pow10(19))
+	case 3:
+		img = new(big.Int).Quo(c, ref.Pow10(19))
+	case 4:
+		img = new(big.Int).Set(c)
+		if bl := c.BitLen(); bl > 1 {
+			img.SetBit(img, bl-1, 0)
+		}
+	default:
+		bl := c.BitLen()
+		m := new(big.Int).Sub(new(big.Int).Lsh(ref.One, uint(bl)), ref.One)
+		img = new(big.Int).Xor(c, m)
+	}
+	if img.Sign() == 0 {
+		img.SetInt64(1)
+	}
+	return img
+}
+
+// WordImageOperand returns an operand whose coefficient is WordImage(c)*10^g
+// at exponent e-g (g chosen so that it fits), with the given sign.
+func (r *RNG) WordImageOperand(neg bool, c *big.Int, e int) ref.Bits {
+	img := r.WordImage(c)
+	g := r.Range(0, 34)
+	for g > 0 && (new(big.Int).Mul(img, ref.Pow10(g)).Cmp(ref.Cmax) > 0 || e-g < ref.MinExp) {
+		g--
+	}
+	return ref.Encode(neg, new(big.Int).Mul(img, ref.Pow10(g)), ClampExp(e-g))
+}
+
 // ThresholdExact returns an internal threshold itself (those that are valid
 // coefficients), or its neighbour.
 func (r *RNG) ThresholdExact() *big.Int {
